@@ -192,6 +192,8 @@ def _detect(run, step, files, src, add, tag, sig):
             obj = view[1]
             cls = type(obj).__name__
             completed = bool(getattr(obj, 'completed', False))
+            if src == 's3-prefix':
+                pos = 0     # the order of a bucket listing is whatever the listing returns: not judged
             hit = None
             for k in range(pos, len(lines)):
                 if name in lines[k] and cls in lines[k]:
@@ -207,7 +209,7 @@ def _detect(run, step, files, src, add, tag, sig):
             if cmd == 'inspect':
                 want = _inspect_text(obj)
                 if want is not None:
-                    rest = '\n'.join(lines[pos:])
+                    rest = '\n'.join(lines[(0 if src == 's3-prefix' else pos):])
                     if want.strip('\n') not in rest:
                         add('C19.inspect', 'inspect: the outline of file #%d (%s) is not what the library prints' % (seq.index(f), cls))
                     else:
